@@ -16,6 +16,7 @@ fn main() {
         "layers" => h::eng_layers::main(rest),
         "writer" => h::eng_writer::main(rest),
         "repair" => h::eng_repair::main(rest),
+        "reader" => h::eng_reader::main(rest),
         e => {
             eprintln!("unknown engine {e}");
             std::process::exit(2);
